@@ -139,3 +139,20 @@ Proof.
   intros Hs Hp Hps Hin Hn.
   rewrite (start_stage_child_waits_for_parent s id i k st p ps Hs Hp Hps Hn) in Hin. simpl in Hin. exact Hin.
 Qed.
+
+(* StartTask writes a stage (starts or skips a task) only when every before stage of that stage is complete: a duplicate
+   StartTask of the previous loop iteration cannot run a parent's task ahead of its re-armed before stages *)
+Theorem start_task_after_before_stages s id i t j st' b :
+  In (j, st') (puts (h_commits (handle_start_task s id i t))) ->
+  In b (kids s i OwnBefore) -> is_complete (status_at s b) = true.
+Proof.
+  unfold handle_start_task. destruct (get_stage s i) as [st|]; [|intros []].
+  destruct (nth_error (s_tasks st) t) as [tk|]; [|intros []].
+  destruct (status_eqb (s_status st) NOT_STARTED); [simpl; intros []|].
+  destruct (before_incomplete s i) eqn:B; [simpl; intros []|].
+  intros _ Hb. unfold before_incomplete in B.
+  destruct (is_complete (status_at s b)) eqn:C; [reflexivity|].
+  assert (existsb (fun j0 => negb (is_complete (status_at s j0))) (kids s i OwnBefore) = true) as X.
+  { apply existsb_exists. exists b. split; [exact Hb|rewrite C; reflexivity]. }
+  rewrite X in B. discriminate.
+Qed.
